@@ -21,7 +21,7 @@ Definition zlen (l : list T) : Z := Z.of_nat (length l).
 
 (* l[i] *)
 Definition idx (l : list T) (i : Z) : option T :=
-  if i <? 0 then None else nth_error l (Z.to_nat i).
+  if (i <? 0) || (zlen l <=? i) then None else nth_error l (Z.to_nat i).
 
 (* l[i] = v *)
 Definition upd (l : list T) (i : Z) (v : T) : option (list T) :=
@@ -47,6 +47,13 @@ Definition top (l : list T) : sres T :=
 Definition peek (n : Z) (l : list T) : sres (T * bool) :=
   if StackIdx.peek_none n (zlen l) then SOk (zero, StackIdx.peek_ret_none)
   else match idx l (StackIdx.peek_idx n (zlen l)) with Some v => SOk (v, StackIdx.peek_ret_ok) | None => SPanic end.
+
+(* the same with the index expression evaluated in machine arithmetic: [w] is applied to its
+   value (w = wrap-around to 64 bits for the Go code; the identity gives [peek]).  Used only to
+   show that the unbounded-Z model is faithful for every int argument (StackProofsInt.v). *)
+Definition peek_w (w : Z -> Z) (n : Z) (l : list T) : sres (T * bool) :=
+  if StackIdx.peek_none n (zlen l) then SOk (zero, StackIdx.peek_ret_none)
+  else match idx l (w (StackIdx.peek_idx n (zlen l))) with Some v => SOk (v, StackIdx.peek_ret_ok) | None => SPanic end.
 
 (* out, ok := s.Peek(0); if ok { s.list[len(s.list)-1] = zero; s.list = s.list[:len(s.list)-1] } *)
 Definition pop (l : list T) : sres (list T * (T * bool)) :=
@@ -152,7 +159,7 @@ Definition sastep (a : list T) (o : sop) : list T * sout :=
   | SClear => ([], TUnit)
   | STop => (a, TVal (hd zero a))
   | SPeek n => if n <? 0 then (a, TPanic)
-               else if (Z.to_nat n <? length a)%nat then (a, TValBool (nth (Z.to_nat n) a zero) true)
+               else if n <? Z.of_nat (length a) then (a, TValBool (nth (Z.to_nat n) a zero) true)
                else (a, TValBool zero false)
   | SPop => match a with [] => (a, TValBool zero false) | x :: a' => (a', TValBool x true) end
   | SEach f => (a, TList (svisited f a))
